@@ -295,3 +295,32 @@ Definition CH_values (c : PubClientHelloMsg) :=
    CH_AlpnProtocols c, CH_SupportedSignatureAlgorithmsCert c, CH_SupportedVersions c, CH_Cookie c, elems (CH_KeyShares c),
    CH_EarlyData c, CH_PskModes c, elems (CH_PskIdentities c), CH_PskBinders c, CH_QuicTransportParameters c,
    CH_encryptedClientHello c).
+
+(* ---------- decidable well-formedness of field values (premise of the marshal -> parse theorem); the
+   correspondence check evaluates it on the result of every accepted parse ---------- *)
+Definition nonnilb {A} (l : list A) : bool := negb (is_nil l).
+Definition u16_okb (x : N) : bool := x <? 65536.
+Definition share_okb (k : keyShare) : bool := (ks_group k <? 65536) && nonnilb (ks_data k).
+Definition id_okb (p : pskIdentity) : bool := (pi_obfuscatedTicketAge p <? 4294967296) && nonnilb (pi_label p).
+Definition wf_extb (x : ext) : bool :=
+  match x with
+  | XSni n => nonnilb n && negb (last n 0 =? 46)
+  | XStatus b => b
+  | XCurves l | XSigAlgs l | XSigAlgsCert l | XVersions l => nonnilb l && forallb u16_okb l
+  | XPoints p => nonnilb p
+  | XCookie c => nonnilb c
+  | XAlpn l => nonnilb l && forallb nonnilb l
+  | XKeyShares l => forallb share_okb l
+  | XPsk ids bs => nonnilb ids && forallb id_okb ids && nonnilb bs && forallb nonnilb bs
+  | XUnknown _ => false
+  | _ => true
+  end.
+Definition is_some_nil {A} (s : slice A) : bool := match s with Some [] => true | _ => false end.
+Definition canonb (m : clientHelloMsg) : bool :=
+  (ch_ticketSupported m || is_nil (ch_sessionTicket m)) &&
+  (ch_secureRenegotiationSupported m || is_nil (ch_secureRenegotiation m)) &&
+  (negb (existsb (N.eqb scsv) (ch_cipherSuites m)) || ch_secureRenegotiationSupported m) &&
+  (nonnilb (elems (ch_pskIdentities m)) || is_nil (ch_pskBinders m)) &&
+  negb (is_some_nil (ch_keyShares m)) && negb (is_some_nil (ch_pskIdentities m)) && negb (ch_nextProtoNeg m).
+Definition wf_msgb (m : clientHelloMsg) : bool :=
+  canonb m && forallb wf_extb (present m) && (ch_vers m <? 65536) && forallb u16_okb (ch_cipherSuites m).
